@@ -73,9 +73,13 @@ VARIABLES
   nextId,     \* fresh position ids
   \* @type: Int;
   ngo,        \* go commands accepted so far
-  \* @type: Bool;
-  orphan      \* the search thread of an ANSWERED go is still alive (it has not looked at the clock since the deadline)
-vars == <<nread, io, board, table, flagOver, left, chan, best, srch, root, sent, started, pending, out, nextId, ngo, orphan>>
+  \* @type: Set(Int);
+  owed,       \* positions whose ANSWERED search still owes the info line of the last board it handed over
+  \* @type: Str;
+  stage,      \* where the search thread stands with an improvement: "idle" | "accepted" (clock test passed) | "sent" (board handed over, line not yet printed)
+  \* @type: Int;
+  cur         \* the root move of that improvement
+vars == <<nread, io, board, table, flagOver, left, chan, best, srch, root, sent, started, pending, out, nextId, ngo, owed, stage, cur>>
 
 Pos(id, n) == [id |-> id, n |-> n]
 NoBest == [pos |-> -1, mv |-> 0]
@@ -83,18 +87,18 @@ Line(t, a, b) == [t |-> t, a |-> a, b |-> b]
 
 Init == /\ nread = 0 /\ io = "read" /\ board = Pos(0, MaxMoves) /\ table = <<>> /\ flagOver = FALSE
         /\ left = 0 /\ chan = <<>> /\ best = NoBest /\ srch = "none" /\ root = Pos(0, 0) /\ sent = 0 /\ started = FALSE
-        /\ pending = "none" /\ out = <<>> /\ nextId = 1 /\ ngo = 0 /\ orphan = FALSE
+        /\ pending = "none" /\ out = <<>> /\ nextId = 1 /\ ngo = 0 /\ owed = {} /\ stage = "idle" /\ cur = 0
 
 (***************************************************************************)
 (* I/O thread: read one line and dispatch.                                 *)
 (***************************************************************************)
 IsReady == /\ io = "read" /\ nread < MaxCmds /\ nread' = nread + 1
            /\ out' = Append(out, Line("readyok", 0, 0))
-           /\ UNCHANGED <<io, board, table, flagOver, left, chan, best, srch, root, sent, started, pending, nextId, ngo, orphan>>
+           /\ UNCHANGED <<io, board, table, flagOver, left, chan, best, srch, root, sent, started, pending, nextId, ngo, owed, stage, cur>>
 
 \* unknown command, empty line, ucinewgame, setoption: nothing changes
 Ignored == /\ io = "read" /\ nread < MaxCmds /\ nread' = nread + 1
-           /\ UNCHANGED <<io, board, table, flagOver, left, chan, best, srch, root, sent, started, pending, out, nextId, ngo, orphan>>
+           /\ UNCHANGED <<io, board, table, flagOver, left, chan, best, srch, root, sent, started, pending, out, nextId, ngo, owed, stage, cur>>
 
 \* position X: the record is cleared and rebuilt, the board replaced: a function of the command alone
 Position == /\ io = "read" /\ nread < MaxCmds /\ nread' = nread + 1
@@ -103,7 +107,7 @@ Position == /\ io = "read" /\ nread < MaxCmds /\ nread' = nread + 1
                  /\ flagOver' = (n = 0)
             /\ table' = <<nextId>>
             /\ nextId' = nextId + 1
-            /\ UNCHANGED <<io, left, chan, best, srch, root, sent, started, pending, out, ngo, orphan>>
+            /\ UNCHANGED <<io, left, chan, best, srch, root, sent, started, pending, out, ngo, owed, stage, cur>>
 
 Terminal == IF BugStaleGameOver THEN flagOver ELSE board.n = 0
 
@@ -111,7 +115,7 @@ Terminal == IF BugStaleGameOver THEN flagOver ELSE board.n = 0
 GoTerminal == /\ io = "read" /\ nread < MaxCmds /\ nread' = nread + 1 /\ ngo' = ngo + 1
               /\ Terminal /\ ~BugNoAnswerWhenNoMoves
               /\ out' = Append(out, Line("bestmove", board.id, 0))
-              /\ UNCHANGED <<io, board, table, flagOver, left, chan, best, srch, root, sent, started, pending, nextId, orphan>>
+              /\ UNCHANGED <<io, board, table, flagOver, left, chan, best, srch, root, sent, started, pending, nextId, owed, stage, cur>>
 
 \* go: slice computed, deadline set, search thread spawned on a copy of board and table
 GoAccept == /\ io = "read" /\ nread < MaxCmds /\ nread' = nread + 1 /\ ngo' = ngo + 1
@@ -119,22 +123,22 @@ GoAccept == /\ io = "read" /\ nread < MaxCmds /\ nread' = nread + 1 /\ ngo' = ng
             /\ \E s \in 0..MaxSlice : left' = s
             /\ io' = "poll" /\ best' = NoBest /\ srch' = "run" /\ root' = board /\ sent' = 0 /\ started' = FALSE
             /\ chan' = IF BugSharedChannel THEN chan ELSE <<>>
-            /\ pending' = "go"
-            /\ UNCHANGED <<board, table, flagOver, out, nextId, orphan>>
+            /\ pending' = "go" /\ stage' = "idle" /\ cur' = 0
+            /\ UNCHANGED <<board, table, flagOver, out, nextId, owed>>
 
 Quit == /\ io = "read" /\ nread < MaxCmds /\ nread' = nread + 1 /\ io' = "dead"
-        /\ UNCHANGED <<board, table, flagOver, left, chan, best, srch, root, sent, started, pending, out, nextId, ngo, orphan>>
+        /\ UNCHANGED <<board, table, flagOver, left, chan, best, srch, root, sent, started, pending, out, nextId, ngo, owed, stage, cur>>
 
 Eof == /\ io = "read" /\ nread = MaxCmds
        /\ IF BugEofSpins THEN UNCHANGED io ELSE io' = "dead"
-       /\ UNCHANGED <<nread, board, table, flagOver, left, chan, best, srch, root, sent, started, pending, out, nextId, ngo, orphan>>
+       /\ UNCHANGED <<nread, board, table, flagOver, left, chan, best, srch, root, sent, started, pending, out, nextId, ngo, owed, stage, cur>>
 
 (***************************************************************************)
 (* I/O thread: the polling loop `while !out_of_time || best_move.is_none()`*)
 (***************************************************************************)
 PollRecv == /\ io = "poll" /\ chan # <<>>
             /\ best' = Head(chan) /\ chan' = Tail(chan)
-            /\ UNCHANGED <<nread, io, board, table, flagOver, left, srch, root, sent, started, pending, out, nextId, ngo, orphan>>
+            /\ UNCHANGED <<nread, io, board, table, flagOver, left, srch, root, sent, started, pending, out, nextId, ngo, owed, stage, cur>>
 
 \* leaves the loop only when the deadline has passed AND a board was received; prints it and adopts it
 PollExit == /\ io = "poll" /\ left = 0 /\ best # NoBest
@@ -142,53 +146,65 @@ PollExit == /\ io = "poll" /\ left = 0 /\ best # NoBest
             /\ \E n \in 0..MaxMoves : board' = Pos(nextId, n)      \* the position after the engine's own move
             /\ nextId' = nextId + 1
             /\ io' = "read" /\ pending' = "none"
-            /\ orphan' = (srch = "run")
-            /\ UNCHANGED <<nread, table, flagOver, left, chan, best, srch, root, sent, started, ngo>>
+            \* the search thread hands its board over BEFORE it prints the line for it (engine.rs: tx.send, then
+            \* send_search_info): a thread that stands between the two when the answer goes out still owes that line
+            /\ owed' = IF srch = "run" /\ stage = "sent" THEN owed \cup {root.id} ELSE owed
+            /\ UNCHANGED <<nread, table, flagOver, left, chan, best, srch, root, sent, started, ngo, stage, cur>>
 
 Tick == /\ io = "poll" /\ left > 0 /\ left' = left - 1
-        /\ UNCHANGED <<nread, io, board, table, flagOver, chan, best, srch, root, sent, started, pending, out, nextId, ngo, orphan>>
+        /\ UNCHANGED <<nread, io, board, table, flagOver, chan, best, srch, root, sent, started, pending, out, nextId, ngo, owed, stage, cur>>
 
 (***************************************************************************)
 (* Search thread (boundary behaviour of get_best_move).                    *)
 (***************************************************************************)
 Send(mv) == chan' = Append(chan, [pos |-> root.id, mv |-> mv])
 
-\* an accepted improvement: only before the deadline, only a root move
-SrchImprove == /\ srch = "run" /\ root.n > 0 /\ left > 0 /\ sent < MaxSends
-               /\ \E m \in 1..root.n : Send(m)
-               /\ sent' = sent + 1 /\ started' = TRUE
-               /\ UNCHANGED <<nread, io, board, table, flagOver, left, best, srch, root, pending, out, nextId, ngo, orphan>>
+\* An improvement takes three steps of the search thread, and the I/O thread may run between any two of them:
+\* the clock test that admits it (only before the deadline, only a root move) ...
+SrchAccept == /\ io = "poll" /\ srch = "run" /\ root.n > 0 /\ left > 0 /\ sent < MaxSends /\ stage = "idle"
+              /\ \E m \in 1..root.n : cur' = m
+              /\ stage' = "accepted" /\ started' = TRUE
+              /\ UNCHANGED <<nread, io, board, table, flagOver, left, chan, best, srch, root, sent, pending, out, nextId, ngo, owed>>
+\* ... the board handed over (while the polling loop of its own go is still there to receive it; afterwards the send fails
+\* and the thread dies without printing - the named deviation SrchSendAfterClose, nothing visible) ...
+SrchSend == /\ io = "poll" /\ srch = "run" /\ stage = "accepted"
+            /\ Send(cur) /\ sent' = sent + 1 /\ stage' = "sent"
+            /\ UNCHANGED <<nread, io, board, table, flagOver, left, best, srch, root, started, pending, out, nextId, ngo, owed, cur>>
+\* ... and the info line printed (inside its own go: not recorded in `out`; after the answer: OrphanLastLine)
+SrchPrint == /\ io = "poll" /\ srch = "run" /\ stage = "sent"
+             /\ stage' = "idle"
+             /\ UNCHANGED <<nread, io, board, table, flagOver, left, chan, best, srch, root, sent, started, pending, out, nextId, ngo, owed, cur>>
 
 \* the first root move is being searched when nothing has been accepted yet
 SrchStart == /\ srch = "run" /\ root.n > 0 /\ ~started /\ started' = TRUE
-             /\ UNCHANGED <<nread, io, board, table, flagOver, left, chan, best, srch, root, sent, pending, out, nextId, ngo, orphan>>
+             /\ UNCHANGED <<nread, io, board, table, flagOver, left, chan, best, srch, root, sent, pending, out, nextId, ngo, owed, stage, cur>>
 
 \* deadline seen at the head of the root loop: fallback send if nothing was sent, then return
-SrchStop == /\ srch = "run" /\ root.n > 0 /\ left = 0
+SrchStop == /\ srch = "run" /\ root.n > 0 /\ left = 0 /\ (stage = "idle" \/ io # "poll")
             /\ IF sent = 0 /\ (~BugFallbackBeforeLoop \/ ~started)
                THEN Send(1) /\ sent' = 1
                ELSE UNCHANGED <<chan, sent>>
             /\ srch' = "done"
-            /\ UNCHANGED <<nread, io, board, table, flagOver, left, best, root, started, pending, out, nextId, ngo, orphan>>
+            /\ UNCHANGED <<nread, io, board, table, flagOver, left, best, root, started, pending, out, nextId, ngo, owed, stage, cur>>
 
 \* no root moves: the thread returns without sending
 SrchNoMoves == /\ srch = "run" /\ root.n = 0 /\ srch' = "done"
-               /\ UNCHANGED <<nread, io, board, table, flagOver, left, chan, best, root, sent, started, pending, out, nextId, ngo, orphan>>
+               /\ UNCHANGED <<nread, io, board, table, flagOver, left, chan, best, root, sent, started, pending, out, nextId, ngo, owed, stage, cur>>
 
-\* The named deviation of the design (SrchSendAfterClose): the thread of an answered go passed its clock test just before
-\* the deadline; it prints ONE more info line (and sends into a channel nobody reads any more, where it dies), at any
-\* later moment - possibly while the next go is already being served.  TraceUci tolerates exactly this (Foreign).
-OrphanLastLine == /\ orphan /\ orphan' = FALSE
-                  /\ out' = Append(out, Line("info-of-previous-search", root.id, 0))
-                  /\ UNCHANGED <<nread, io, board, table, flagOver, left, chan, best, srch, root, sent, started, pending, nextId, ngo>>
+\* The search thread of an ANSWERED go prints the line it owes, at any later moment - possibly while the next go is already
+\* being served, and possibly with a small `time` field (the line was formatted before the thread was pre-empted).  Each
+\* answered search owes at most one such line.  TraceUci tolerates exactly this (Foreign).
+OrphanLastLine == /\ \E p \in owed : /\ owed' = owed \ {p}
+                                     /\ out' = Append(out, Line("info-of-previous-search", p, 0))
+                  /\ UNCHANGED <<nread, io, board, table, flagOver, left, chan, best, srch, root, sent, started, pending, nextId, ngo, stage, cur>>
 
 IoStep == IsReady \/ Ignored \/ Position \/ GoTerminal \/ GoAccept \/ Quit \/ Eof \/ PollRecv \/ PollExit
-SrchStep == SrchImprove \/ SrchStart \/ SrchStop \/ SrchNoMoves \/ OrphanLastLine
+SrchStep == SrchAccept \/ SrchSend \/ SrchPrint \/ SrchStart \/ SrchStop \/ SrchNoMoves \/ OrphanLastLine
 Next == IoStep \/ Tick \/ SrchStep
 
 Fairness == /\ WF_vars(IsReady \/ Ignored \/ Position \/ GoTerminal \/ GoAccept \/ Quit \/ Eof)
             /\ WF_vars(PollRecv) /\ WF_vars(PollExit) /\ WF_vars(Tick)
-            /\ WF_vars(SrchStop) /\ WF_vars(SrchNoMoves)
+            /\ WF_vars(SrchStop) /\ WF_vars(SrchNoMoves) /\ WF_vars(SrchSend) /\ WF_vars(SrchPrint)
 Spec == Init /\ [][Next]_vars /\ Fairness
 
 (***************************************************************************)
@@ -205,15 +221,18 @@ ChannelFresh == \A i \in 1..Len(chan) : io = "poll" => chan[i].pos = root.id /\ 
 \* only state in which it can be printed next
 NoEarlyAnswer == (io = "poll" /\ ENABLED PollExit) => left = 0
 TypeOk == /\ io \in {"read", "poll", "dead"} /\ left \in 0..MaxSlice /\ sent \in 0..(MaxSends + 1)
-          /\ pending \in {"none", "go"} /\ srch \in {"none", "run", "done"}
+          /\ pending \in {"none", "go"} /\ srch \in {"none", "run", "done"} /\ stage \in {"idle", "accepted", "sent"}
 \* C16 (structural): right after a position command board and record depend on that command only
 RecordFresh == table = <<>> \/ Len(table) = 1
 
-\* C18 (model level): between two answers at most one line of an earlier search is printed
-StaleLines(i, j) == Cardinality({k \in i..j : out[k].t = "info-of-previous-search"})
-AtMostOneStaleLinePerGo ==
-  \A i, j \in 1..Len(out) :
-    (i < j /\ out[i].t = "bestmove" /\ out[j].t = "bestmove" /\ \A k \in (i + 1)..(j - 1) : out[k].t # "bestmove") => StaleLines(i, j) <= 1
+\* C18 (model level): every line that surfaces outside its own go belongs to a search that HAS been answered, and each
+\* answered search prints at most one such line (two earlier searches may each owe one: two stale lines inside one go are
+\* possible, three from one search are not)
+StaleOf(p) == {k \in 1..Len(out) : out[k].t = "info-of-previous-search" /\ out[k].a = p}
+EachSearchAtMostOneLateLine == \A k \in 1..Len(out) : out[k].t = "info-of-previous-search" => Cardinality(StaleOf(out[k].a)) <= 1
+LateLinesOnlyFromAnsweredSearches ==
+  \A k \in 1..Len(out) : out[k].t = "info-of-previous-search" => \E j \in 1..(k - 1) : out[j].t = "bestmove" /\ out[j].a = out[k].a
+AtMostOneStaleLinePerGo == EachSearchAtMostOneLateLine /\ LateLinesOnlyFromAnsweredSearches
 
 \* liveness: C08 every go is answered; C17 the process ends after quit / end of input
 GoAnswered == (pending = "go") ~> (pending = "none")
